@@ -392,6 +392,20 @@ VARIANTS = [
      "new": "        dead_match = None\n        for candidate in self.regions:\n            if candidate.handle == handle:\n"
             "                if candidate.is_alive:\n                    return candidate\n"
             "                dead_match = dead_match or candidate\n        return dead_match\n"},
+    {"name": "P R8 region_by_handle through a finder helper with predicate lambdas", "file": STATE, "expect": "silent",
+     "old": "    def region_by_handle(self, handle: int) -> Optional[BaseClientRegion]:\n" + _A2_FIXED,
+     "new": "    def _first_region(self, accepts):\n        for candidate in self.regions:\n            if accepts(candidate):\n"
+            "                return candidate\n        return None\n\n"
+            "    def region_by_handle(self, handle: int) -> Optional[BaseClientRegion]:\n"
+            "        live = self._first_region(lambda r: r.handle == handle and r.is_alive)\n"
+            "        if live is not None:\n            return live\n"
+            "        return self._first_region(lambda r: r.handle == handle)\n"},
+    {"name": "R8 finder helper asked for the handle only (dead region wins again)", "file": STATE, "expect": "C14.R8",
+     "old": "    def region_by_handle(self, handle: int) -> Optional[BaseClientRegion]:\n" + _A2_FIXED,
+     "new": "    def _first_region(self, accepts):\n        for candidate in self.regions:\n            if accepts(candidate):\n"
+            "                return candidate\n        return None\n\n"
+            "    def region_by_handle(self, handle: int) -> Optional[BaseClientRegion]:\n"
+            "        return self._first_region(lambda r: r.handle == handle)\n"},
     {"name": "R4 unchanged reply leaves the request pending (fix reverted)", "file": OM, "expect": "C14.R4",
      "old": _A3_FIXED,
      "new": "        if actually_updated_props and new_region_state is not None:\n"
